@@ -155,7 +155,7 @@ PROPS = {
             {"kind": "verus", "unit": "sequpd"},
         ],
         "unreached": [
-            "XSequence::chain, get on Chain (partition_point), len on Chain/Map/Zip (macros over dyn Any downcasts, Cow, iterator chains: outside Verus' dialect; BigInt promotion closure makes them intractable for CBMC)",
+            "XSequence::chain (that it establishes the cumulative-length invariant V-seq assumes for the Chain arm of get), len on Chain/Map/Zip (macros over dyn Any downcasts, Cow, iterator chains: outside Verus' dialect; BigInt promotion closure makes them intractable for CBMC)",
             "of push / rpush / insert / pop / set / swap the prefix before the extracted statements (argument evaluation, downcast, the finiteness test and the allocation pre-flight); every other native builtin body; Map/Zip representations (call the evaluator); include.rs",
         ],
         "assumptions": ["LazyBigint operations by the contracts unit V-int proves (canonical representation of the mathematical result)",
